@@ -52,6 +52,7 @@ type Engine struct {
 	Preload bool // server's preload setting
 	Journal *os.File
 	Cfg     map[string]interface{}
+	Retag   string
 	// statistics of the case, used for the non-triviality rule
 	nUnaligned, nMut, nReopen, nStraddle, nWrites int
 }
@@ -161,6 +162,11 @@ func (e *Engine) rec(op Op) *Op {
 // under check bear on the verdict of this run; others are counted.
 func (e *Engine) Fail(prop, sig, what string) {
 	e.Dead = true
+	if e.Retag != "" && prop != e.Retag {
+		// inside a deletion scenario a changed live image or snapshot is a violation of the deletion property
+		sig = "after-deletion:" + prop + ":" + sig
+		prop = e.Retag
+	}
 	if prop != e.Prop {
 		e.Res.Count("other_property_observation:"+prop+":"+sig, 1)
 		return
